@@ -262,6 +262,12 @@ class Interp:
                 if attr in m2.functions:
                     return FuncRef(m2, m2.functions[attr])
             return ModAttr(base.name, attr)
+        if isinstance(base, ModAttr):
+            # (C03) attribute of an attribute of an external module (service_identity.cryptography.f, crypto.X509.g):
+            # still external; the stub is looked up under the dotted name "mod.sub.f"
+            return ModAttr(base.mod, base.attr + "." + attr)
+        if type(base).__name__ == "ExcValue" and attr == "args":
+            return ExcArgs(base.exc)  # only subscripted with a constant (e_Subscript)
         if type(base).__name__ == "ExcValue":
             return self.exc_attr(base.exc, attr)
         if isinstance(base, PyObj):
@@ -519,6 +525,28 @@ class Interp:
                 raise Unsupported("comprehension element with side effects")
         res = sym.fresh(TList(elt.ty), self.ctx.fresh_name("comp"))
         self.ctx.assume(sym.list_len(res) == n)
+        # (C03) ELEMENT INVARIANT, contract key comps={ordinal: [clauses over the target name and `_y`]}: each clause P is
+        # PROVED for the arbitrary position just executed (target = iterable[k], _y = the element value computed) and then
+        # ASSUMED for every position i of the result (target = iterable[i], _y = result[i]).  Sound because the element
+        # expression is side-effect free (checked above), so every position is evaluated in the same state, and P may
+        # only mention the target, `_y` and constants (no attribute reads, no calls): it is state independent.
+        contract = getattr(env, "contract", None)
+        clauses = None
+        if contract is not None and getattr(contract, "comps", None) and not (isinstance(it, ast.Call) and isinstance(it.func, ast.Name) and it.func.id == "range"):
+            fn = getattr(env, "func", None)
+            comps = sorted([x for x in ast.walk(fn) if isinstance(x, ast.ListComp)], key=lambda x: (x.lineno, x.col_offset)) if fn is not None else []
+            ordn = next((i for i, x in enumerate(comps) if x is node), None)
+            clauses = contract.comps.get(ordn)
+        for j, cl in enumerate(clauses or []):
+            tree = self.parse_clause(cl)
+            for sub in ast.walk(tree):
+                if isinstance(sub, (ast.Attribute, ast.Call, ast.Subscript)) or (isinstance(sub, ast.Name) and sub.id not in (g.target.id, "_y", "True", "False", "None")):
+                    raise Unsupported("comprehension element invariant may only mention %s and _y" % g.target.id)
+            l1 = {g.target.id: item, "_y": elt}
+            self.ctx.oblige("%s:comp%d.elem.%d" % (getattr(env, "fname", "?"), ordn, j), "assert", self.spec_bool(cl, env.child(l1)), site=node.lineno, note=cl)
+            i = self.ctx.fresh_const(z3.IntSort(), "comp_q")
+            l2 = {g.target.id: V(seq.ty.elem, z3.Select(sym.list_arr(seq), i)), "_y": V(elt.ty, z3.Select(sym.list_arr(res), i))}
+            self.ctx.assume(z3.ForAll([i], z3.Implies(z3.And(0 <= i, i < n), self.spec_bool(cl, env.child(l2))), patterns=[z3.Select(sym.list_arr(res), i), z3.Select(sym.list_arr(seq), i)]))  # either cell triggers
         return res
 
     def e_Lambda(self, node, env):
@@ -781,6 +809,10 @@ class Interp:
             return z3.Select(cont.t, self.set_key(ty, item))
         if isinstance(ty, TList):
             k = self.ctx.fresh_const(z3.IntSort(), "k")
+            if isinstance(item, V) and isinstance(item.ty, TOpt) and not isinstance(ty.elem, TOpt) and ty.elem != TAny:
+                # (C03) `<Optional[T]> in <list[T]>`: None equals no element of a list of non-None values
+                it = sym.coerce(sym.opt_val(item), ty.elem)
+                return z3.And(z3.Not(sym.opt_is_none(item)), z3.Exists([k], z3.And(0 <= k, k < sym.list_len(cont), z3.Select(sym.list_arr(cont), k) == it.t)))
             it = sym.coerce(item, ty.elem)
             return z3.Exists([k], z3.And(0 <= k, k < sym.list_len(cont), z3.Select(sym.list_arr(cont), k) == it.t))
         if isinstance(ty, TRef):
@@ -818,6 +850,15 @@ class Interp:
         base = self.eval(node.value, env)
         if type(base).__name__ == "DispatchTable":
             return self.table_subscript(base, self.evalv(node.slice, env), node)  # dispatch.py, S1
+        if isinstance(base, ExcArgs):
+            # (C03) `exc.args[k]`, k a constant: the k-th constructor argument when the exception was built by interpreted
+            # code; for an exception raised by a stub only what the stub declares (raise_attrs key "args<k>")
+            k = node.slice.value if isinstance(node.slice, ast.Constant) and isinstance(node.slice.value, int) else None
+            if k is not None and 0 <= k < len(base.exc.args_v) and isinstance(base.exc.args_v[k], V):
+                return base.exc.args_v[k]
+            if k is not None and ("args%d" % k) in base.exc.kwargs_v:
+                return base.exc.kwargs_v["args%d" % k]
+            raise Unsupported("args[%s] of an exception whose arguments are unknown" % (k,))
         if isinstance(base, PyObj):
             raise Unsupported("subscript of python object")
         if isinstance(node.slice, ast.Slice):
@@ -984,6 +1025,13 @@ class StarArg(PyObj):
 
     def __init__(self, v):
         self.v = v
+
+
+class ExcArgs(PyObj):
+    """`exc.args` of a caught exception (only `exc.args[<constant>]` is supported)"""
+
+    def __init__(self, exc):
+        self.exc = exc
 
 
 class ModAttr(PyObj):
